@@ -30,7 +30,8 @@ def model_check(ctx):
             # frames that need two writes (partial write, remainder parked) behind / in front of other frames
             ("partial-writes", stream_consts(2, 2, 2, 2, send=3, reopen=1, sizes=("small", "big"))),
             ("partial-writes-wire1", stream_consts(1, 2, 2, 1, send=3, reopen=0, sizes=("small", "big"), sink=1)),
-            ("sizes-all", stream_consts(2, 2, 2, 2, send=4, reopen=0, sizes=("small", "big", "over")))]
+            ("sizes-all", stream_consts(2, 2, 2, 2, send=4, reopen=0, sizes=("small", "big", "over"))),
+            ("empty-notifications", stream_consts(2, 2, 2, 2, send=4, reopen=1, sizes=("small", "empty")))]
     if not ctx.quick():
         runs += [("partial-writes-send4", stream_consts(2, 2, 2, 2, send=4, reopen=1, sizes=("small", "big"), sink=3))]
         runs += [("cap2-send5", stream_consts(2, 2, 2, 2, send=5)), ("s2a1n1w2", stream_consts(2, 1, 1, 2, send=5)),
@@ -282,6 +283,7 @@ def selftest(ctx):
     mutate("clog-below-capacity", spurious_clog, "clogged although the synchronous channel cannot be full")
     # (b) negative model configurations: seeded defects / unknown tag must break an invariant
     for name, consts in [("drop_parked", stream_consts(1, 1, 1, 1, mut="drop_parked", sink=1)), ("dup_write", stream_consts(2, 2, 2, 3, mut="dup_write", sink=3)),
+                         ("skip_empty", stream_consts(2, 2, 2, 2, send=3, reopen=0, sizes=("small", "empty"), mut="skip_empty")),
                          ("requeue_back", stream_consts(2, 2, 2, 2, send=3, reopen=0, sizes=("small", "big"), mut="requeue_back")),
                          ("stale-untagged", stream_consts(2, 2, 2, 2, known=False))]:
         r = tlc_mc(ctx, "NotifStreamMC.tla", write_cfg(ctx, "neg_%s.cfg" % name, consts, MC_LINES), workers=4, timeout=600, expect_violation=True)
